@@ -362,7 +362,7 @@ func genSession(t *rapid.T, service string, slot int) session {
 		add("USER", []byte("USER anonymous\r\n"))
 		add("PASS", []byte("PASS "+rapid.SampledFrom([]string{"anonymous", "anonymous", "wrong"}).Draw(t, "pass")+"\r\n"))
 		for i := 0; i < n; i++ {
-			c := rapid.SampledFrom([]string{"PWD", "MKD " + m, "CWD " + m, "CDUP", "PWD", "RMD " + m, "CWD /", "SYST", "NOOP", "RNFR " + m, "SIZE " + m}).Draw(t, "cmd")
+			c := rapid.SampledFrom([]string{"PWD", "MKD " + m, "CWD " + m, "CDUP", "PWD", "RMD " + m, "CWD /", "SYST", "NOOP", "RNFR " + m, "SIZE " + m, "FEAT", "HELP", "STAT", "TYPE I", "MODE S", "OPTS UTF8 ON", "ALLO 10", "REST 0", "XPWD", "XMKD " + m + "x", "XRMD " + m + "x", "DELE " + m}).Draw(t, "cmd")
 			add(strings.Fields(c)[0], []byte(c+"\r\n"))
 		}
 	case "smtp":
@@ -456,8 +456,8 @@ func genSession(t *rapid.T, service string, slot int) session {
 		}
 		// clients also send what the protocol does not expect at that point: a DATA block
 		// without an open transfer (retransmission after the transfer ended, lost WRQ), a
-		// read request, an ACK
-		switch rapid.SampledFrom([]string{"upload", "upload", "upload", "stray-data", "stray-then-upload", "rrq", "ack"}).Draw(t, "tftp-kind") {
+		// read request (an ACK gets no reply at all, which the lock-step runner would wait for)
+		switch rapid.SampledFrom([]string{"upload", "upload", "upload", "stray-data", "stray-then-upload", "rrq"}).Draw(t, "tftp-kind") {
 		case "stray-data":
 			add("data", append([]byte{0, 3, 0, byte(rapid.IntRange(0, 3).Draw(t, "blk"))}, []byte(m)...))
 			return s
@@ -468,9 +468,6 @@ func genSession(t *rapid.T, service string, slot int) session {
 			}
 		case "rrq":
 			add("rrq", append([]byte{0, 1}, []byte(m+".bin\x00octet\x00")...))
-			return s
-		case "ack":
-			add("ack", []byte{0, 4, 0, 1})
 			return s
 		}
 		add("wrq", append([]byte{0, 2}, []byte(m+".bin\x00octet\x00")...))
